@@ -188,3 +188,30 @@ def replay(task, failure):
     w = failure["witness"]
     why = fails(w["op"], w["w"], tuple(w["a"]), tuple(w["b"]) if w.get("b") else None, SI, BoolResult)
     return {"reproduced": why is not None, "text": f"{w['op']} at {w['w']} bits on a={w['a']} b={w.get('b')} (lb, ub, stride): {why or 'sound'}"}
+
+
+def run_history(ops=("eval", "min", "max", "cardinality", "solution", "union", "intersection", "add", "ULT", "SLT"), widths=(2, 3, 2, 1, 3), budget_s=200):
+    """the same exhaustive enumeration, but several widths one after the other IN ONE PROCESS and in an order that revisits a width: the result
+    of an operation on an interval must not depend on what was computed before (a memo keyed without the width, a shared scratch object).
+    Every (operation, width) is enumerated once per occurrence in `widths`; the failing inputs must be exactly the recorded ones each time."""
+    t0 = time.time()
+    total = {"status": "ok", "evaluations": 0, "distinct_nontrivial": 0, "failures": [], "n_failures": 0, "known_hits": 0, "exhaustive": True, "reason": "",
+             "rule": f"operations {list(ops)} on every well-formed strided interval (pair) at widths {list(widths)} in this order in one process; "
+                     "failing inputs must be the recorded ones at every visit"}
+    for visit, w in enumerate(widths):
+        for op in ops:
+            r = run(op, w, budget_s=max(5, budget_s - (time.time() - t0)))
+            total["evaluations"] += r["evaluations"]
+            total["distinct_nontrivial"] += r["distinct_nontrivial"]
+            total["known_hits"] += r.get("known_hits", 0)
+            if not r.get("exhaustive", True):
+                total["exhaustive"] = False
+                total["reason"] = "budget reached (partial)"
+            for f in r["failures"]:
+                f = dict(f, label=f["label"] + f"/after-history", detail=f"[visit {visit + 1} of widths {list(widths)}] " + f["detail"])
+                total["failures"].append(f)
+            total["n_failures"] += r["n_failures"]
+    if total["n_failures"]:
+        total["status"] = "violated"
+    total["failures"] = total["failures"][:5]
+    return total
